@@ -281,6 +281,12 @@ pub use light::{
 };
 pub use locate::{locate_offset, locate_offset_detailed, LocateResult};
 pub use scalar::{resolve_plain, resolve_tagged, ResolvedScalar};
+#[cfg(feature = "verif-hooks")]
+#[doc(hidden)]
+pub use light::verif_write_i64;
+#[cfg(feature = "verif-hooks")]
+#[doc(hidden)]
+pub use scalar::verif_needs_explicit_float_tag;
 
 #[cfg(test)]
 mod tests {
